@@ -959,7 +959,9 @@ def run(chk):
     rng = random.Random(chk.seed)
     merge_known()
     C.print_assumptions = union_print_assumptions
-    chk.build_proofs()
+    # (ProxProofsUniExact: exactness proof of the CANDIDATE repair of unimodality_prox, build/fix_candidates/C12_unimodality_exact.*; built and gated
+    # with the property's files, not used by Props / Corr)
+    chk.build_proofs(extra_targets=["theories/Proofs/ProxProofsUniExact.vo"])
     drop_header_pseudo_axiom(chk)
     # corr:C12-static: the dispatch table regenerated from the current source by an ast translation, compared with the model inside Coq
     # (runs beside the case generation and the case shards; joined before the verdict)
